@@ -491,3 +491,42 @@ PROPS["C03"] = dict(
     assumptions=["inputs are NUL-free as the property states; lcp[0] is unspecified by the API and not checked",
                  "std::string elements are compared as a multiset of values (the sorters may move them)", SAN_ASSUME],
 )
+
+# ----------------------------------------------------------------------------- C11
+_SCHED_FLAGS = ["-include", "dsched.hpp"]
+_SCHED_ASSUME = ("dsched shims (sched/dsched.hpp) model std::mutex / condition_variable / thread / atomic faithfully; "
+                 "controlled schedules are sequentially consistent, condition variables never wake spuriously and "
+                 "notify_one may wake any waiter; weak-memory effects are only covered by TSan's happens-before "
+                 "analysis of the jittered real-thread runs")
+PROPS["C11"] = dict(
+    units={"sync": dict(src=["harness/C11_sync.cpp"], flags=_SCHED_FLAGS)},
+    quick=[
+        R("sync", "plain", 8, 400, ["mode=serial"]),
+        R("sync", "asan", 4, 60, ["mode=serial"]),
+        R("sync", "tsan", 4, 40, ["mode=jitter"]),
+        R("sync", "asan", 2, 30, ["mode=jitter"]),
+    ],
+    thorough=[
+        R("sync", "plain", 16, 4000, ["mode=serial"], timeout=7200),
+        R("sync", "asan", 8, 400, ["mode=serial"], timeout=7200),
+        R("sync", "tsan", 8, 300, ["mode=jitter"], timeout=7200),
+        R("sync", "asan", 4, 300, ["mode=jitter"], timeout=7200),
+    ],
+    rule="a case = 50 scenarios, each run under one schedule. Semaphore scenarios: 1-3 waiter threads (wait / "
+         "try_acquire with equal deltas, mixed deltas 1..3 or mixed deltas with slack 0..2, occasionally delta 0), 0-2 "
+         "signaler threads (signal(), signal(n), try_acquire), initial value 0..2, and the controller thread; either "
+         "the supply covers the demand or (serial mode) it does not and the controller inspects every rest state "
+         "(all other threads blocked or finished): a blocked waiter whose request is covered by value() is a stranded "
+         "waiter, otherwise the controller supplies tokens for the least demanding one (batch or single signals). All "
+         "completed operations are replayed on the sequential model in the order of their deciding mutex "
+         "acquisition. Barrier scenarios: ThreadBarrierMutex / ThreadBarrierSpin x wait / wait_yield, 1-4 threads "
+         "(jitter: up to 16), 3-7 generations with random work in between; enter/leave/action tickets checked per "
+         "generation, the action's thread against the last arriver from the shim's operation log (serial). "
+         "mode=serial: controlled schedules (uniform random, sticky random, PCT-style priorities with 1-3 change "
+         "points); distinct schedules are counted by the hash of their decisions. mode=jitter: real threads with "
+         "seeded yields/sleeps under TSan and ASan. Classes: scenario type x shape.",
+    require=dict(any=["sem_histories", "barrier_histories", "sem_rest_states_inspected", "sem_waits_that_blocked",
+                      "sem_ops_replayed", "barrier_generations", "schedule_steps"]),
+    assumptions=[_SCHED_ASSUME, "a deadlock (no runnable logical thread) or a thread left alive at the end of a scenario is "
+                 "a violation; a wall-clock watchdog on the real-thread runs is inconclusive", SAN_ASSUME],
+)
